@@ -445,6 +445,19 @@ Qed.
 End UnionType.
 
 (* ------------------------------------------------------------------ soundness of run *)
+Arguments cast_ok : simpl never.
+Arguments compat : simpl never.
+Arguments shape_ok : simpl never.
+Arguments find_callable : simpl never.
+Arguments validate_rec : simpl never.
+Arguments callables_named : simpl never.
+Arguments infer_common_type : simpl never.
+Arguments infer_index : simpl never.
+Arguments union_type : simpl never.
+Arguments balance : simpl never.
+Arguments cartesian : simpl never.
+Arguments coerce : simpl never.
+
 Section Sound.
 Variable sg : sig.
 Hypothesis WF : sig_wf sg = true.
@@ -543,7 +556,7 @@ Proof.
     assert (Hfl : forallb (fun b => ty_eqb (barg_target b) ret) [b1; b2] = true).
     { unfold setlike_flow in Hall. destruct (N.eqb nm (sg_if sg)); exact Hall. }
     simpl in Hfl. apply andb_true_iff in Hfl as [E1 E2]. apply andb_true_iff in E2 as [E2 _].
-    apply ty_eqb_eq in E1, E2. rewrite <- E1 in *. apply typed_app; auto. rewrite E1, <- E2. auto.
+    apply ty_eqb_eq in E1, E2. rewrite E1 in Hl. rewrite E2 in Hr. apply typed_app; auto.
   - destruct (N.eqb nm (sg_coalesce sg)) eqn:Ec.
     + destruct vals as [|l [|r [|]]]; try discriminate. inversion Hs; subst.
       inversion HF as [|? b1 ? bs Hl HF2]; subst. inversion HF2 as [|? b2 ? bs2 Hr HF3]; subst.
@@ -551,7 +564,7 @@ Proof.
       assert (Hfl : forallb (fun b => ty_eqb (barg_target b) ret) [b1; b2] = true).
       { unfold setlike_flow in Hall. destruct (N.eqb nm (sg_if sg)); exact Hall. }
       simpl in Hfl. apply andb_true_iff in Hfl as [E1 E2]. apply andb_true_iff in E2 as [E2 _].
-      apply ty_eqb_eq in E1, E2. destruct l; [rewrite <- E2; auto|rewrite <- E1; auto].
+      apply ty_eqb_eq in E1, E2. rewrite E1 in Hl. rewrite E2 in Hr. destruct l; auto.
     + destruct (N.eqb nm (sg_if sg)) eqn:Ei; [|discriminate].
       destruct vals as [|t [|c [|f [|]]]]; try discriminate. inversion Hs; subst.
       inversion HF as [|? b1 ? bs Ht HF2]; subst. inversion HF2 as [|? b2 ? bs2 Hc HF3]; subst.
@@ -559,7 +572,8 @@ Proof.
       unfold setlike_flow in Hall. rewrite Ei in Hall. simpl in Hall.
       apply andb_true_iff in Hall as [E1 E2]. apply andb_true_iff in E2 as [E2 _].
       apply ty_eqb_eq in E1, E2.
-      apply typed_flat_map. intros b _. destruct (truthy b); [rewrite <- E1|rewrite <- E2]; auto.
+      rewrite E1 in Ht. rewrite E2 in Hf.
+      apply typed_flat_map. intros b _. destruct (truthy b); auto.
 Qed.
 
 Lemma apply_bcall_sound : forall bc args kws t vs,
@@ -578,3 +592,543 @@ Proof.
     + apply Hprim; auto.
   - apply Hprim; auto.
 Qed.
+
+Ltac dres H :=
+  match type of H with
+  | match ?X with Ok _ => _ | Err _ => _ end = _ =>
+      let E := fresh "E" in destruct X eqn:E; [|discriminate H]
+  end.
+
+Lemma typed_objvals : forall l r (a : argv) v,
+  av_typed a -> In v (if is_object (av_ty a) then av_vs a else []) ->
+  In (av_ty a) [l; r] -> has_type sg v (union_type sg l r) = true.
+Proof.
+  intros l r a v Ha Hv Hin.
+  destruct (is_object (av_ty a)) eqn:Eo; [|contradiction].
+  unfold av_typed, typed in Ha. rewrite Forall_forall in Ha. specialize (Ha v Hv).
+  assert (Hc : forall o, In o (obj_components (av_ty a)) ->
+                         In o (obj_components l ++ obj_components r)).
+  { intros o Ho. apply in_or_app. destruct Hin as [-> | [-> | []]]; auto. }
+  remember (av_ty a) as ta eqn:Et. destruct ta; try discriminate.
+  - (* TObj *)
+    destruct v; simpl in Ha; try discriminate.
+    eapply union_type_sound_comp; eauto. apply Hc. simpl. auto.
+  - (* TUnion *)
+    destruct v; simpl in Ha; try discriminate.
+    apply existsb_exists in Ha as [q [Hq Hoq]].
+    eapply union_type_sound_comp; eauto.
+Qed.
+
+Lemma compile_operator_sound : forall nm argvs t vs,
+  Forall av_typed argvs -> compile_operator' nm argvs = Ok (t, true, vs) -> typed t vs.
+Proof.
+  intros nm argvs t vs Ha H. unfold compile_operator in H.
+  destruct (existsb is_union (map av_ty argvs)); [discriminate|].
+  destruct (callables_named sg nm true) as [|first rest]; [discriminate|].
+  unfold bind in H at 1. dres H.
+  unfold bind in H at 1. dres H.
+  match type of H with
+  | match ?M with _ => _ end = _ => destruct M as [|c [|c2 m2]]; try discriminate
+  end.
+  unfold bind in H. destruct (apply_bcall' c argvs []) as [[[rtype clean] vs0]|] eqn:Eap; [|discriminate].
+  destruct (is_set_like_op sg (cl_name (bc_f c)) && is_object rtype) eqn:Eobj.
+  - (* union type of the operands *)
+    destruct (N.eqb nm (sg_if sg)) eqn:Eif.
+    + destruct argvs as [|l [|c0 [|r [|]]]]; try discriminate.
+      inversion H; subst. clear H.
+      inversion Ha as [|? ? Hl Ha2]; subst. inversion Ha2 as [|? ? Hc Ha3]; subst.
+      inversion Ha3 as [|? ? Hr _]; subst.
+      unfold sem_setlike.
+      destruct (N.eqb nm (sg_union sg)); [apply typed_nil|].
+      destruct (N.eqb nm (sg_coalesce sg)); [apply typed_nil|].
+      rewrite Eif. apply typed_flat_map. intros b _.
+      destruct (truthy b); apply Forall_forall; intros v Hv.
+      * eapply (typed_objvals _ _ l); eauto. simpl; auto.
+      * eapply (typed_objvals _ _ r); eauto. simpl; auto.
+    + destruct argvs as [|l [|r [|]]]; try discriminate.
+      inversion H; subst. clear H.
+      inversion Ha as [|? ? Hl Ha2]; subst. inversion Ha2 as [|? ? Hr _]; subst.
+      unfold sem_setlike.
+      destruct (N.eqb nm (sg_union sg)).
+      * apply Forall_forall. intros v Hv. apply in_app_or in Hv as [Hv|Hv].
+        -- eapply (typed_objvals _ _ l); eauto. simpl; auto.
+        -- eapply (typed_objvals _ _ r); eauto. simpl; auto.
+      * destruct (N.eqb nm (sg_coalesce sg)).
+        -- destruct (if is_object (av_ty l) then av_vs l else []) as [|w ws] eqn:El.
+           ++ apply Forall_forall. intros v Hv. eapply (typed_objvals _ _ r); eauto. simpl; auto.
+           ++ apply Forall_forall. intros v Hv. eapply (typed_objvals _ _ l); eauto.
+              rewrite El. exact Hv. simpl; auto.
+        -- rewrite Eif. apply typed_nil.
+  - inversion H; subst. eapply apply_bcall_sound; eauto.
+Qed.
+
+Lemma compile_call_sound : forall nm argvs kwvs t vs,
+  Forall av_typed argvs -> Forall (fun k => av_typed (snd k)) kwvs ->
+  compile_call' nm argvs kwvs = Ok (t, true, vs) -> typed t vs.
+Proof.
+  intros nm argvs kwvs t vs Ha Hk H. unfold compile_call in H.
+  destruct (existsb is_union (map av_ty argvs) || existsb (fun kv => is_union (av_ty (snd kv))) kwvs);
+    [discriminate|].
+  destruct (callables_named sg nm false) as [|f fs]; [discriminate|].
+  unfold bind in H. dres H.
+  destruct a as [|c [|c2 m2]]; try discriminate.
+  eapply apply_bcall_sound; eauto.
+Qed.
+
+Definition res_typed (d : res (argv * bool)) : Prop := forall a, d = Ok (a, true) -> av_typed a.
+
+Lemma balance_unfold : forall fuel l,
+  balance' fuel l =
+  match fuel with
+  | O => Err EInternal
+  | S fuel' =>
+      match l with
+      | [] => Err EInternal
+      | [d] => d
+      | _ =>
+          let mid := Nat.div2 (length l) in
+          lt <- balance' fuel' (firstn mid l) ;;
+          rt <- balance' fuel' (skipn mid l) ;;
+          r <- compile_operator' (sg_union sg) [fst lt; fst rt] ;;
+          let '(t, clean, vs) := r in
+          Ok (mk_argv (mk_argd t false false) vs, clean && snd lt && snd rt)
+      end
+  end.
+Proof. destruct fuel; reflexivity. Qed.
+
+Lemma balance_sound : forall fuel l a,
+  Forall res_typed l -> balance' fuel l = Ok (a, true) -> av_typed a.
+Proof.
+  induction fuel; intros l a HF H; rewrite balance_unfold in H; [discriminate|].
+  destruct l as [|d [|d2 l']]; [discriminate| |].
+  - inversion HF; subst. auto.
+  - remember (d :: d2 :: l') as L.
+    cbv zeta in H. unfold bind in H.
+    rewrite <- (firstn_skipn (Nat.div2 (length L)) L) in HF. apply Forall_app in HF as [HF1 HF2].
+    destruct (balance' fuel (firstn (Nat.div2 (length L)) L)) as [[la lc]|] eqn:E1; [|discriminate].
+    destruct (balance' fuel (skipn (Nat.div2 (length L)) L)) as [[ra rc]|] eqn:E2; [|discriminate].
+    simpl in H.
+    destruct (compile_operator' (sg_union sg) [la; ra]) as [[[t clean] vs]|] eqn:E3; [|discriminate].
+    inversion H; subst. clear H.
+    apply andb_true_iff in H2 as [H2 Hrc]. apply andb_true_iff in H2 as [Hcl Hlc]. subst.
+    unfold av_typed. simpl.
+    eapply compile_operator_sound; [|exact E3].
+    constructor; [exact (IHfuel _ la HF1 E1)|]. constructor; [exact (IHfuel _ ra HF2 E2)|constructor].
+Qed.
+
+Lemma varr_typed : forall t l, typed t l -> has_type sg (VArr l) (TArr t) = true.
+Proof.
+  intros t l H. simpl. induction H; auto. rewrite H. simpl. exact IHForall.
+Qed.
+
+Lemma has_type_varr_inv : forall l t, has_type sg (VArr l) (TArr t) = true -> typed t l.
+Proof.
+  intros l t H. simpl in H. induction l; [constructor|].
+  apply andb_true_iff in H as [H1 H2]. constructor; auto. apply IHl. exact H2.
+Qed.
+
+Lemma coerce_typed : forall from to vs, typed from vs -> typed to (coerce sg castv from to vs).
+Proof.
+  intros from to vs H. unfold coerce.
+  destruct (compat sg to from && shape_ok to from) eqn:E.
+  - apply andb_true_iff in E as [Ec Es]. unfold compat in Ec. apply andb_true_iff in Ec as [Ei _].
+    eapply Forall_impl; [|exact H]. intros v Hv. eapply has_type_sub; eauto.
+  - apply typed_flat_map. intros. apply Hcast.
+Qed.
+
+Lemma tuple_value_typed : forall named (rs : list (N * (ty * bool * list value))) l,
+  Forall (fun r => typed (fst (fst (snd r))) (snd (snd r))) rs ->
+  Forall2 (fun x xs => In x xs) l (map (fun r => snd (snd r)) rs) ->
+  has_type sg (tuple_value named (map fst rs) l)
+           (TTup named (map (fun r => (fst r, fst (fst (snd r)))) rs)) = true.
+Proof.
+  intros named rs l HF H2. unfold tuple_value. simpl. rewrite Bool.eqb_reflx. simpl.
+  revert l H2. induction HF; intros l0 H2; simpl in H2.
+  - inversion H2. reflexivity.
+  - inversion H2 as [|v xs l' ? Hin H3]; subst. simpl.
+    destruct x as [n [[t c] vs]]. simpl in *.
+    rewrite N.eqb_refl. simpl.
+    unfold typed in H. rewrite Forall_forall in H. rewrite (H v Hin). simpl. apply IHHF. exact H3.
+Qed.
+
+Lemma tuple_align : forall vs' els,
+  (fix go (l : list (N * value)) (r : list (N * ty)) {struct l} : bool :=
+     match l, r with
+     | [], [] => true
+     | (i, x) :: l', (j, y) :: r' => N.eqb i j && has_type sg x y && go l' r'
+     | _, _ => false
+     end) vs' els = true ->
+  Forall2 (fun a b => fst a = fst b /\ has_type sg (snd a) (snd b) = true) vs' els.
+Proof.
+  induction vs' as [|[i x] vs']; intros [|[j y] els] H; try discriminate; constructor.
+  - apply andb_true_iff in H as [H H2]. apply andb_true_iff in H as [H0 H1].
+    apply N.eqb_eq in H0. simpl. auto.
+  - apply andb_true_iff in H as [H H2]. auto.
+Qed.
+
+Lemma has_type_tup_inv : forall v named els,
+  has_type sg v (TTup named els) = true ->
+  exists n vs', v = VTup n vs' /\
+    Forall2 (fun a b => fst a = fst b /\ has_type sg (snd a) (snd b) = true) vs' els.
+Proof.
+  intros v named els H. destruct v; simpl in H; try discriminate.
+  apply andb_true_iff in H as [_ H]. eexists; eexists; split; [reflexivity|].
+  apply tuple_align. exact H.
+Qed.
+
+Lemma proj_pos_typed : forall named els k i x vs,
+  typed (TTup named els) vs -> nth_error els k = Some (i, x) ->
+  typed x (flat_map (proj_pos k) vs).
+Proof.
+  intros named els k i x vs H Hn. apply typed_flat_map. intros v Hv.
+  unfold typed in H. rewrite Forall_forall in H. specialize (H v Hv).
+  apply has_type_tup_inv in H as [n [vs' [-> HF]]]. simpl.
+  destruct (nth_error vs' k) as [[j w]|] eqn:E; [|constructor].
+  constructor; [|constructor].
+  clear -HF Hn E. revert k Hn E. induction HF; intros k Hn E; destruct k; simpl in *; try discriminate.
+  - inversion Hn; inversion E; subst. destruct H as [_ H]. exact H.
+  - eauto.
+Qed.
+
+Lemma proj_name_typed : forall named els n x vs,
+  typed (TTup named els) vs -> assoc n els = Some x ->
+  typed x (flat_map (proj_name n) vs).
+Proof.
+  intros named els n x vs H Hn. apply typed_flat_map. intros v Hv.
+  unfold typed in H. rewrite Forall_forall in H. specialize (H v Hv).
+  apply has_type_tup_inv in H as [m [vs' [-> HF]]]. simpl.
+  destruct (assoc n vs') as [w|] eqn:E; [|constructor].
+  constructor; [|constructor].
+  clear -HF Hn E. induction HF; simpl in *; try discriminate.
+  destruct x0 as [i a], y as [j b]. destruct H as [H1 H2]. simpl in *. subst.
+  destruct (N.eqb n j).
+  - inversion Hn; inversion E; subst. exact H2.
+  - auto.
+Qed.
+
+Lemma index_value_typed : forall t ti rt vs vis,
+  infer_index sg s_int64 t ti = Ok rt -> typed t vs ->
+  typed rt (flat_map (fun v => flat_map (index_value idxp rt v) vis) vs).
+Proof.
+  intros t ti rt vs vis Hi Hv. apply typed_flat_map. intros v Hin.
+  apply typed_flat_map. intros iv _.
+  unfold typed in Hv. rewrite Forall_forall in Hv. specialize (Hv v Hin).
+  destruct v; simpl; try apply Hidx.
+  destruct iv; try apply typed_nil.
+  destruct (payload <? 0)%Z; [apply typed_nil|].
+  destruct (nth_error vs0 (Z.to_nat payload)) as [w|] eqn:E; [|apply typed_nil].
+  constructor; [|constructor].
+  apply nth_error_In in E.
+  destruct t; simpl in Hv; try discriminate.
+  - (* TAny *) unfold infer_index in Hi. simpl in Hi. inversion Hi. apply has_type_any.
+  - (* TArr *)
+    unfold infer_index in Hi. simpl in Hi.
+    destruct (impl_castable sg ti (TS s_int64)); inversion Hi; subst.
+    apply has_type_varr_inv in Hv. unfold typed in Hv. rewrite Forall_forall in Hv. auto.
+Qed.
+
+Lemma cart_coerce_typed : forall (rs : list (ty * bool * list value)) tc,
+  Forall (fun r => typed (fst (fst r)) (snd r)) rs ->
+  forall cl, Forall2 (fun x xs => In x xs) cl
+                     (map (fun r => coerce sg castv (fst (fst r)) tc (snd r)) rs) ->
+  typed tc cl.
+Proof.
+  induction 1; intros cl Hl; simpl in Hl; inversion Hl; subst; constructor.
+  - pose proof (coerce_typed _ tc _ H) as Hc. unfold typed in Hc. rewrite Forall_forall in Hc.
+    apply Hc. assumption.
+  - apply IHForall. assumption.
+Qed.
+
+Notation farg := (fun x => r <- run' x ;; Ok (as_arg x r)).
+
+Definition sound_e (e : expr) : Prop := forall t vs, run' e = Ok (t, true, vs) -> typed t vs.
+
+Lemma farg_typed : forall e, sound_e e -> res_typed (farg e).
+Proof.
+  intros e He a H. unfold bind in H.
+  destruct (run' e) as [[[t c] vs]|] eqn:E; [|discriminate].
+  simpl in H. inversion H; subst. unfold av_typed. simpl. apply He. exact E.
+Qed.
+
+Lemma mapM_farg_typed : forall es rs,
+  Forall sound_e es -> mapM farg es = Ok rs -> forallb snd rs = true ->
+  Forall av_typed (map fst rs).
+Proof.
+  intros es rs HF HM Hc. apply mapM_ok in HM.
+  induction HM; simpl; [constructor|].
+  inversion HF; subst. simpl in Hc. apply andb_true_iff in Hc as [Hc1 Hc2].
+  constructor; auto. destruct y as [a c]. simpl in *. subst.
+  eapply farg_typed; eauto.
+Qed.
+
+Lemma set_elem_nonset : forall (f : expr -> res (argv * bool)) e,
+  (forall es, e <> ESet es) -> e <> EEmpty -> set_elem f e = [f e].
+Proof. intros f e H1 H2. destruct e; try reflexivity; [congruence|exfalso; eapply H1; eauto]. Qed.
+
+Definition Q (e : expr) : Prop := sound_e e /\ Forall res_typed (set_elem farg e).
+
+Lemma Q_of_sound : forall e, (forall es, e <> ESet es) -> e <> EEmpty -> sound_e e -> Q e.
+Proof.
+  intros e H1 H2 Hs. split; auto. rewrite set_elem_nonset; auto.
+  constructor; [apply farg_typed; auto|constructor].
+Qed.
+
+Lemma flat_map_set_elem : forall es, Forall Q es ->
+  Forall res_typed (flat_map (set_elem farg) es).
+Proof.
+  induction 1; simpl; [constructor|]. apply Forall_app. split; auto. apply H.
+Qed.
+
+Theorem run_sound_Q : forall e, Q e.
+Proof.
+  induction e using expr_ind'.
+  - (* ELit *)
+    apply Q_of_sound; try congruence. intros t vs H. simpl in H.
+    destruct (sc_is_abstract sg s); inversion H; subst.
+    constructor; [|constructor]. simpl. apply sc_sub_refl.
+  - (* EEmpty *)
+    split; [|simpl; constructor]. intros t vs H. simpl in H. inversion H. apply typed_nil.
+  - (* ECast *)
+    apply Q_of_sound; try congruence. destruct IHe as [IHe _].
+    intros t0 vs H. simpl in H. unfold bind in H.
+    destruct (run' e) as [[[a c] vs1]|] eqn:E; [|discriminate].
+    destruct (cast_ok sg cast_fuel2 true _ t); [|discriminate].
+    inversion H; subst. clear H.
+    destruct (ty_eqb a t0) eqn:Eq.
+    + apply ty_eqb_eq in Eq. subst. apply IHe. exact E.
+    + apply typed_flat_map. intros. apply Hcast.
+  - (* ETuple *)
+    apply Q_of_sound; try congruence.
+    intros t vs H0. simpl in H0.
+    destruct (n && has_dup (map fst els)); [discriminate|]. unfold bind in H0.
+    destruct (mapM _ els) as [rs|] eqn:EM; [|discriminate].
+    inversion H0; subst. clear H0.
+    apply mapM_ok in EM.
+    assert (HT : Forall (fun r => typed (fst (fst (snd r))) (snd (snd r))) rs).
+    { clear -EM H H3. induction EM; [constructor|].
+      inversion H; subst. simpl in H3. apply andb_true_iff in H3 as [Hc1 Hc2].
+      constructor; auto.
+      unfold bind in H0. destruct (run' (snd x)) as [[[t c] vs]|] eqn:E; [|discriminate].
+      inversion H0; subst. simpl in *. subst. destruct H4 as [H4 _]. apply H4. exact E. }
+    apply Forall_forall. intros v Hv. apply in_map_iff in Hv as [l [<- Hl]].
+    apply cartesian_In in Hl. apply tuple_value_typed; auto.
+  - (* EArray *)
+    apply Q_of_sound; try congruence.
+    intros t vs H0. simpl in H0. unfold bind in H0.
+    destruct (mapM run' es) as [rs|] eqn:EM; [|discriminate].
+    destruct (existsb is_array (map (fun r => fst (fst r)) rs)); [discriminate|].
+    apply mapM_ok in EM.
+    destruct rs as [|r0 rs'].
+    + simpl in H0. inversion H0; subst. constructor; [reflexivity|constructor].
+    + remember (r0 :: rs') as rs.
+      assert (Hne : map (fun r => fst (fst r)) rs <> []) by (subst; simpl; congruence).
+      destruct (map (fun r => fst (fst r)) rs) eqn:Em; [congruence|]. rewrite <- Em in H0.
+      destruct (infer_common_type sg (map (fun r => fst (fst r)) rs)) as [tc|] eqn:Ei; [|discriminate].
+      inversion H0; subst t vs. clear H0.
+      assert (HT : Forall (fun r => typed (fst (fst r)) (snd r)) rs).
+      { clear -EM H H3. induction EM; [constructor|].
+        inversion H; subst. simpl in H3. apply andb_true_iff in H3 as [Hc1 Hc2].
+        constructor; auto. destruct y as [[t c] vs]. simpl in *. subst.
+        destruct H4 as [H4 _]. apply H4. exact H0. }
+      apply Forall_forall. intros v Hv. apply in_map_iff in Hv as [cl [<- Hl]].
+      apply cartesian_In in Hl. apply varr_typed.
+      eapply cart_coerce_typed; eauto.
+  - (* ESet *)
+    assert (HF : Forall res_typed (flat_map (set_elem farg) es)) by (apply flat_map_set_elem; auto).
+    split.
+    + intros t vs H0. simpl in H0.
+      destruct (flat_map (set_elem farg) es) as [|d [|d2 ds]] eqn:Ed.
+      * inversion H0. apply typed_nil.
+      * unfold bind in H0. destruct d as [[a c]|]; [|discriminate].
+        simpl in H0. inversion H0; subst. inversion HF; subst. apply (H3 a). reflexivity.
+      * unfold bind in H0.
+        destruct (balance' (S (length (d :: d2 :: ds))) (d :: d2 :: ds)) as [[a c]|] eqn:Eb;
+          [|discriminate].
+        simpl in H0. inversion H0; subst.
+        eapply balance_sound; eauto.
+    + simpl. clear -H. induction H; simpl; [constructor|]. apply Forall_app. split; auto. apply H.
+  - (* EOp *)
+    apply Q_of_sound; try congruence.
+    intros t vs H0. simpl in H0. unfold bind in H0.
+    destruct (mapM _ es) as [rs|] eqn:EM; [|discriminate].
+    change (mapM farg es = Ok rs) in EM.
+    destruct (compile_operator' o (map fst rs)) as [[[t0 c0] vs0]|] eqn:Ec; [|discriminate].
+    inversion H0; subst. clear H0.
+    apply andb_true_iff in H3 as [Hc0 Hrs]. subst.
+    eapply compile_operator_sound; [|exact Ec].
+    apply (mapM_farg_typed es rs); auto.
+    eapply Forall_impl; [|exact H]. intros a [Ha _]. exact Ha.
+  - (* ECall *)
+    apply Q_of_sound; try congruence.
+    intros t vs H1. simpl in H1. unfold bind in H1.
+    destruct (mapM _ es) as [rs|] eqn:EM; [|discriminate].
+    change (mapM farg es = Ok rs) in EM.
+    destruct (mapM _ kw) as [ks|] eqn:EK; [|discriminate].
+    destruct (compile_call' f (map fst rs) _) as [[[t0 c0] vs0]|] eqn:Ec; [|discriminate].
+    inversion H1; subst. clear H1.
+    apply andb_true_iff in H4 as [H4 Hks]. apply andb_true_iff in H4 as [Hc0 Hrs]. subst.
+    eapply compile_call_sound; [| |exact Ec].
+    + apply (mapM_farg_typed es rs); auto.
+      eapply Forall_impl; [|exact H]. intros a [Ha _]. exact Ha.
+    + apply mapM_ok in EK. clear -EK H0 Hks. rewrite Forall_map.
+      induction EK; [constructor|]. inversion H0; subst.
+      simpl in Hks. apply andb_true_iff in Hks as [Hk1 Hk2].
+      constructor; auto. simpl.
+      unfold bind in H. destruct (run' (snd x)) as [[[t c] vs]|] eqn:E; [|discriminate].
+      inversion H; subst. simpl in *. subst. unfold av_typed. simpl.
+      destruct H3 as [H3 _]. apply H3. exact E.
+  - (* ETupIdx *)
+    apply Q_of_sound; try congruence. destruct IHe as [IHe _].
+    intros t vs H. simpl in H. unfold bind in H.
+    destruct (run' e) as [[[t0 c] vs0]|] eqn:E; [|discriminate].
+    destruct t0; try discriminate.
+    destruct (n <? 32)%N.
+    + destruct (nth_error els (N.to_nat n)) as [[i x]|] eqn:En; [|discriminate].
+      inversion H; subst. eapply proj_pos_typed; eauto.
+    + destruct named; [|discriminate].
+      destruct (assoc n els) as [x|] eqn:En; [|discriminate].
+      inversion H; subst. eapply proj_name_typed; eauto.
+  - (* EIndex *)
+    apply Q_of_sound; try congruence. destruct IHe1 as [IH1 _].
+    intros t vs H. simpl in H. unfold bind in H.
+    destruct (run' e1) as [[[t1 c1] vs1]|] eqn:E1; [|discriminate].
+    destruct (run' e2) as [[[t2 c2] vs2]|] eqn:E2; [|discriminate].
+    destruct (infer_index sg s_int64 t1 t2) as [rt|] eqn:Ei; [|discriminate].
+    inversion H; subst. apply andb_true_iff in H2 as [Hc1 Hc2]. subst.
+    eapply index_value_typed; eauto.
+  - (* EObj *)
+    apply Q_of_sound; try congruence. intros t vs H. simpl in H. inversion H; subst. apply Hdb.
+Qed.
+
+Theorem run_sound : forall e t vs, run' e = Ok (t, true, vs) -> typed t vs.
+Proof. intros e. apply (run_sound_Q e). Qed.
+
+End Sound.
+
+(* ------------------------------------------------------------------ the generated table *)
+From Verif.C12 Require Import Gen_StdSig.
+
+Lemma std_sig_wf : sig_wf std_sig = true.
+Proof. vm_compute. reflexivity. Qed.
+
+(* the non-abstract scalar types of the std library (abstract scalars such as anyreal never type
+   an expression of a query; they only occur in signatures) *)
+Definition std_scalar_ids : list N :=
+  map sc_id (filter (fun d => negb (sc_abstract d)) (sg_scalars std_sig)).
+
+Definition ub (s : N) (c : ty) : bool := issub std_sig (TS s) c || impl_castable std_sig (TS s) c.
+
+Definition opt_ty_eqb (a b : option ty) : bool :=
+  match a, b with
+  | Some x, Some y => ty_eqb x y
+  | None, None => true
+  | _, _ => false
+  end.
+
+Lemma opt_ty_eqb_eq : forall a b, opt_ty_eqb a b = true -> a = b.
+Proof.
+  destruct a, b; simpl; intros; try discriminate; auto. apply ty_eqb_eq in H. subst. auto.
+Qed.
+
+Definition all_pairs (p : N -> N -> bool) : bool :=
+  forallb (fun s => forallb (fun q => p s q) std_scalar_ids) std_scalar_ids.
+
+Lemma all_pairs_spec : forall p, all_pairs p = true ->
+  forall s q, In s std_scalar_ids -> In q std_scalar_ids -> p s q = true.
+Proof.
+  unfold all_pairs. intros p H s q Hs Hq. rewrite forallb_forall in H. specialize (H s Hs).
+  rewrite forallb_forall in H. auto.
+Qed.
+
+Lemma std_common_upper_bound_b :
+  all_pairs (fun s q => match find_common std_sig (TS s) (TS q) with
+                        | Some c => ub s c && ub q c
+                        | None => true end) = true.
+Proof. vm_compute. reflexivity. Qed.
+
+Lemma std_common_upper_bound :
+  forall s q c, In s std_scalar_ids -> In q std_scalar_ids ->
+  find_common std_sig (TS s) (TS q) = Some c ->
+  (issub std_sig (TS s) c || impl_castable std_sig (TS s) c) = true /\
+  (issub std_sig (TS q) c || impl_castable std_sig (TS q) c) = true.
+Proof.
+  intros s q c Hs Hq H.
+  pose proof (all_pairs_spec _ std_common_upper_bound_b s q Hs Hq) as P. cbv beta in P.
+  rewrite H in P. apply andb_true_iff in P. exact P.
+Qed.
+
+Lemma std_common_symmetric_b :
+  all_pairs (fun s q => opt_ty_eqb (find_common std_sig (TS s) (TS q))
+                                   (find_common std_sig (TS q) (TS s))) = true.
+Proof. vm_compute. reflexivity. Qed.
+
+Lemma std_common_symmetric :
+  forall s q, In s std_scalar_ids -> In q std_scalar_ids ->
+  find_common std_sig (TS s) (TS q) = find_common std_sig (TS q) (TS s).
+Proof.
+  intros s q Hs Hq. apply opt_ty_eqb_eq.
+  exact (all_pairs_spec _ std_common_symmetric_b s q Hs Hq).
+Qed.
+
+Definition rot1 (l : list ty) : list ty := match l with [] => [] | x :: l' => l' ++ [x] end.
+
+Lemma std_common_order_independent_b :
+  all_pairs (fun s q =>
+    opt_ty_eqb (common_castable_g std_sig (@rev ty) cast_fuel (TS s) (TS q))
+               (common_castable std_sig cast_fuel (TS s) (TS q))
+    && opt_ty_eqb (common_castable_g std_sig rot1 cast_fuel (TS s) (TS q))
+                  (common_castable std_sig cast_fuel (TS s) (TS q))) = true.
+Proof. vm_compute. reflexivity. Qed.
+
+Lemma std_common_order_independent :
+  forall s q, In s std_scalar_ids -> In q std_scalar_ids ->
+  common_castable_g std_sig (@rev ty) cast_fuel (TS s) (TS q) = common_castable std_sig cast_fuel (TS s) (TS q) /\
+  common_castable_g std_sig rot1 cast_fuel (TS s) (TS q) = common_castable std_sig cast_fuel (TS s) (TS q).
+Proof.
+  intros s q Hs Hq.
+  pose proof (all_pairs_spec _ std_common_order_independent_b s q Hs Hq) as P. cbv beta in P.
+  apply andb_true_iff in P as [P1 P2]. split; apply opt_ty_eqb_eq; assumption.
+Qed.
+
+(* ------------------------------------------------------------------ an example semantics *)
+
+(* a primitive that returns its first argument set when the first parameter's (instantiated)
+   type is the (instantiated) return type, nothing otherwise *)
+Definition prim_ex (bc : bcall) (vals : list (list value)) : list value :=
+  match bc_args bc, vals with
+  | b :: _, vs :: _ => if ty_eqb (barg_target b) (bc_ret bc) then vs else []
+  | _, _ => []
+  end.
+(* scalar casts re-tag the payload *)
+Definition castv_ex (a b : ty) (v : value) : list value :=
+  match b, v with TS q, VS _ p => [VS q p] | _, _ => [] end.
+Definition idxp_ex (t : ty) (v i : value) : list value := [].
+Definition db_ex (o : N) : list value := [VObj o 1%N; VObj o 2%N].
+
+Lemma example_semantics_ok_gen : forall sg,
+  (forall bc vals,
+      Forall2 (fun vs b => typed sg (barg_target b) vs) vals (bc_args bc) ->
+      typed sg (bc_ret bc) (prim_ex bc vals)) /\
+  (forall a b v, typed sg b (castv_ex a b v)) /\
+  (forall t v i, typed sg t (idxp_ex t v i)) /\
+  (forall o, typed sg (TObj o) (db_ex o)).
+Proof.
+  intros sg. repeat split.
+  - intros bc vals H. unfold prim_ex. inversion H; subst; [constructor|].
+    destruct (ty_eqb (barg_target y) (bc_ret bc)) eqn:E; [|constructor].
+    apply ty_eqb_eq in E. rewrite <- E. assumption.
+  - intros a b v. unfold castv_ex. destruct b; try constructor. destruct v; try constructor.
+    + simpl. apply sc_sub_refl.
+    + constructor.
+  - constructor.
+  - intros o. unfold db_ex. repeat constructor; simpl; apply ob_sub_refl.
+Qed.
+
+Lemma example_semantics_ok :
+  (forall bc vals,
+      Forall2 (fun vs b => typed std_sig (barg_target b) vs) vals (bc_args bc) ->
+      typed std_sig (bc_ret bc) (prim_ex bc vals)) /\
+  (forall a b v, typed std_sig b (castv_ex a b v)) /\
+  (forall t v i, typed std_sig t (idxp_ex t v i)) /\
+  (forall o, typed std_sig (TObj o) (db_ex o)).
+Proof. exact (example_semantics_ok_gen std_sig). Qed.
